@@ -71,6 +71,11 @@ def table_cases(draw, tier="quick", kind="pd"):
     ncols = draw(st.integers(1, 4))
     nrows = draw(st.integers(0, 8))
     flat = draw(cells(recs, d, ncols * nrows))
+    if recs and draw(st.integers(0, 3)) == 0:
+        # a table whose cells are all convertible one way or the other (known URIs and known CURIEs mixed): the only kind of
+        # table on which strict mode is expected to succeed
+        good = [u + "1" for u in S.all_uri_prefixes(recs)] + [p + d + "1" for p in S.all_prefixes(recs)]
+        flat = [draw(st.sampled_from(good)) for _ in flat]
     rows = [flat[r * ncols:(r + 1) * ncols] for r in range(nrows)]
     if rows and draw(st.integers(0, 19 if tier == "quick" else 9)) == 0:
         # a long table around typical chunk sizes, built by cycling the drawn rows (no extra draws)
@@ -94,7 +99,10 @@ def table_cases(draw, tier="quick", kind="pd"):
         case["func"] = draw(st.sampled_from(PD_FUNCS))
         case["int_labels"] = draw(st.booleans())
         case["target"] = draw(st.sampled_from(["none", "none", "new", "existing"]))
-        case["target_index"] = draw(st.integers(0, ncols - 1))
+        # the first column is over-represented as target: with integer labels it is the falsy label 0, with the
+        # "empty-first" labelling the falsy label ""
+        case["target_index"] = draw(st.sampled_from([0, 0] + list(range(ncols))))
+        case["labels"] = draw(st.sampled_from(["int", "int", "str", "empty-first"]))
         case["index"] = draw(st.sampled_from(["default", "default", "reversed", "strings", "offset"]))
     else:
         case["func"] = draw(st.sampled_from(["file_compress", "file_expand"]))
@@ -167,7 +175,8 @@ def check_pd(case, stats: Stats) -> None:
     stats.ev()
     conv = None
     ncols = case["ncols"]
-    labels = list(range(ncols)) if case["int_labels"] else [f"c{i}" for i in range(ncols)]
+    scheme = case.get("labels") or ("int" if case["int_labels"] else "str")
+    labels = list(range(ncols)) if scheme == "int" else ([""] + [f"c{i}" for i in range(1, ncols)] if scheme == "empty-first" else [f"c{i}" for i in range(ncols)])
     nrows = len(case["rows"])
     idx = {"default": None, "reversed": list(range(nrows - 1, -1, -1)), "strings": [f"r{k}" for k in range(nrows)], "offset": [10 + 3 * k for k in range(nrows)]}[case.get("index", "default")]
     df = pd.DataFrame([list(r) for r in case["rows"]], columns=labels, index=idx)
@@ -176,7 +185,7 @@ def check_pd(case, stats: Stats) -> None:
     if case["target"] == "none":
         tgt = None
     elif case["target"] == "new":
-        tgt = ncols + 5 if case["int_labels"] else "target"
+        tgt = ncols + 5 if scheme == "int" else "target"
     else:
         tgt = labels[case["target_index"]]
     kw = dict(strict=case["strict"], passthrough=case["passthrough"])
